@@ -214,9 +214,13 @@ class Ctx:
             raise Infra("TLC did not finish normally on %s/%s (rc=%d):\n%s" % (module, cfg, p.returncode, out[-5000:]))
         if simulate and p.returncode not in (0,) and not r["violated"]:
             raise Infra("TLC simulation failed on %s/%s (rc=%d):\n%s" % (module, cfg, p.returncode, out[-5000:]))
+        if simulate:
+            m = re.search(r"The number of states generated: (\d+)", out)
+            if m:
+                r["generated"] = int(m.group(1))
         log("[tlc] %s/%s: %d generated, %d distinct, depth %d, %s, %.1fs" % (
             module, cfg, r["generated"], r["distinct"], r["depth"],
-            "no error" if r["noerror"] else ("VIOLATED " + ",".join(r["violated"])), r["wall_s"]))
+            "no error" if (r["noerror"] or (simulate and not r["violated"])) else ("VIOLATED " + ",".join(r["violated"])), r["wall_s"]))
         if count:
             self.states += r["distinct"]
             self.transitions += r["generated"]
